@@ -236,6 +236,7 @@ func runC10(m *Sim) {
 	body := genuine[2 : len(genuine)-72]
 	tnow := uint64(time.Now().Unix())
 	kinds := map[string]bool{}
+	wholeRounds := 0
 	serve := func(b []byte) {
 		w.DialPolicy = func(address string) DialAction {
 			return DialAction{Serve: func(c net.Conn) {
@@ -260,7 +261,10 @@ func runC10(m *Sim) {
 		}
 		// (Not for the replies whose only flaw is a timestamp just outside the
 		// 24 hours: a round takes simulated seconds, the flaw may heal.)
-		if kind != "time-reject" && m.C.Chance("whole-round", 1, 4) {
+		// (A round takes simulated seconds and a node of the test build lives
+		// 120 s: at most eight of them, none after a minute.)
+		if kind != "time-reject" && wholeRounds < 8 && time.Since(m.Start) < 60*time.Second && m.C.Chance("whole-round", 1, 4) {
+			wholeRounds++
 			// The same reply inside a whole sync round (every dial is answered
 			// with it): the round fails, and what the client knows - GCA, id,
 			// server map, the four files - is what it knew before. Which server
